@@ -1,5 +1,8 @@
 import MirModel.PyInt
 import MirProofs.Lemmas.Intervals
+import MirProofs.Lemmas.Segment
+import Mathlib.Data.List.Lex
+import Mathlib.Data.Char
 
 /-! Lemmas about the run-time library `MirModel/PyInt.lean` (`Mir.PyI`): each primitive in the terms the hand-written
     model `MirModel/Intervals.lean` uses (`dropWhile` / `takeWhile`, `getLast?`, `pairs`, `mergeSort`). -/
@@ -272,5 +275,57 @@ theorem pick_none {t : Rat} {x : LI L} (h : lastStarted x t = none) :
     rw [hls] at h; cases h
 
 end lastStarted
+
+/-! ### `sorted(set(·))` on a linearly ordered type: strictly increasing, hence duplicate-free -/
+
+section sortedUniqLO
+open Mir.Segment
+variable {γ : Type} [LinearOrder γ] [dl : DecidableRel (α := γ) (· < ·)] [de : DecidableEq γ]
+
+theorem pairwise_insertUniq_lo {a : γ} {l : List γ} (h : l.Pairwise (· < ·)) :
+    (@insertUniq γ _ dl de a l).Pairwise (· < ·) := by
+  induction l with
+  | nil => simp [insertUniq]
+  | cons b l ih =>
+    unfold insertUniq
+    rw [List.pairwise_cons] at h
+    split
+    · rename_i hab
+      rw [List.pairwise_cons]
+      refine ⟨?_, List.pairwise_cons.2 h⟩
+      intro x hx
+      rcases List.mem_cons.1 hx with rfl | hx
+      · exact hab
+      · exact lt_trans hab (h.1 x hx)
+    · split
+      · exact List.pairwise_cons.2 h
+      · rename_i h1 h2
+        rw [List.pairwise_cons]
+        refine ⟨?_, ih h.2⟩
+        intro x hx
+        rcases mem_insertUniq.1 hx with rfl | hx
+        · exact lt_of_le_of_ne (not_lt.1 h1) (Ne.symm h2)
+        · exact h.1 x hx
+
+theorem nodup_sortedUniq_lo (l : List γ) : (@sortedUniq γ _ dl de l).Nodup := by
+  have : (@sortedUniq γ _ dl de l).Pairwise (· < ·) := by
+    induction l with
+    | nil => simp [sortedUniq]
+    | cons a l ih => exact pairwise_insertUniq_lo ih
+  exact this.imp fun h => ne_of_lt h
+
+end sortedUniqLO
+
+theorem idxOf_map_inj {γ δ : Type} [BEq γ] [LawfulBEq γ] [BEq δ] [LawfulBEq δ] (f : γ → δ)
+    (hf : Function.Injective f) (l : List γ) (a : γ) : (l.map f).idxOf (f a) = l.idxOf a := by
+  induction l with
+  | nil => rfl
+  | cons b l ih =>
+    by_cases h : b = a
+    · subst h; simp [List.idxOf_cons]
+    · have h' : f b ≠ f a := fun e => h (hf e)
+      have e1 : (b == a) = false := by simpa using h
+      have e2 : (f b == f a) = false := by simpa using h'
+      simp [List.idxOf_cons, e1, e2, ih]
 
 end Mir.PyI
